@@ -50,6 +50,33 @@ pub enum Surgery {
         min: i16,
         max: i16,
     },
+    /// Like `FeatureVariations` but with several records (first matching condition wins), so that
+    /// different tuples select different substitution tables.
+    FeatureVariationsMulti {
+        table: String,
+        records: Vec<FvRecord>,
+    },
+    /// Install a synthesised, well-formed AAT `morx` table keyed on `glyphs` (sim/src/morx_build.rs)
+    /// and remove `GSUB` (the library applies morx only when there is no GSUB).
+    InstallMorx { glyphs: Vec<u16>, variant: u64 },
+    /// Install a synthesised CBLC/CBDT (colour) or EBLC/EBDT pair (sim/src/bitmap_build.rs);
+    /// `extended` also emits component formats 8/9 and raw BGRA images.
+    InstallBitmaps {
+        colour: bool,
+        variant: u64,
+        #[serde(default)]
+        extended: bool,
+    },
+    /// Install `vhea`/`vmtx` derived from `hhea`/`hmtx` (only NotoSansJP has them in the corpus).
+    InstallVertical { num_v_metrics: u16 },
+}
+
+#[derive(Serialize, Deserialize, Clone, Debug)]
+pub struct FvRecord {
+    pub feature_index: u16,
+    pub lookups: Vec<u16>,
+    pub min: i16,
+    pub max: i16,
 }
 
 #[derive(Serialize, Deserialize, Clone, Debug)]
